@@ -10,6 +10,7 @@ import XotModel.Driver.Forest
 import XotModel.Driver.IdMap
 import XotModel.Driver.Axes
 import XotModel.Driver.Output
+import XotModel.Driver.Scope
 
 open XotModel.Driver
 
@@ -22,6 +23,7 @@ def dispatch (st : DState) (line : String) : DState × String :=
   | "idmap" :: rest => (handleIdMap st rest).getD (st, "bad-request")
   | "axes" :: rest => (st, (handleAxes rest).getD "bad-request")
   | "ser" :: rest => (st, (handleSer st rest).getD "bad-request")
+  | "scope" :: rest => (st, (handleScope st rest).getD "bad-request")
   | _ => (st, "bad-request")
 
 structure MState where
